@@ -190,9 +190,8 @@ theorem tie_find_lanelet_by_shape_group (env isects : List Pt → Prim → Bool)
 
 theorem tie_rect_compute_vertices (l w : Rat) (ctr : Pt) (cs : Rat × Rat) :
     Gen.Rectangle_compute_vertices l w ctr cs = rectVerts l w ctr cs.1 cs.2 := by
-  have h1 : ∀ x : Rat, (-(1 / 2 : Rat)) * x = -(x / 2) := fun x => by ring
-  have h2 : ∀ x : Rat, (1 / 2 : Rat) * x = x / 2 := fun x => by ring
-  simp only [Gen.Rectangle_compute_vertices, rotateTranslate, rectVerts, List.map, h1, h2]
+  simp only [Gen.Rectangle_compute_vertices, rotateTranslate, rectVerts, List.map, place, List.cons.injEq, Pt.mk.injEq, and_true]
+  refine ⟨⟨?_, ?_⟩, ⟨?_, ?_⟩, ⟨?_, ?_⟩, ⟨?_, ?_⟩, ?_, ?_⟩ <;> ring
 
 theorem tie_rect_invalidate (o : RectObj) : Gen.Rectangle_invalidate_vertices o = o.invalidate := rfl
 theorem tie_rect_set_length (o : RectObj) (v : Rat) : Gen.Rectangle_set_length o v = o.setLength v := rfl
